@@ -71,7 +71,15 @@ pub fn shrink(tape: &[u32], mut fails: impl FnMut(&[u32]) -> bool, budget: usize
         *calls += 1;
         fails(cand)
     };
-    // trailing truncation
+    // first: shortest failing prefix (binary search; entries beyond the tape read as 0 = plainest)
+    {
+        let (mut lo, mut hi) = (0usize, cur.len());
+        while lo < hi {
+            let mid = (lo + hi) / 2;
+            if try_it(&cur[..mid], &mut calls) { hi = mid; } else { lo = mid + 1; }
+        }
+        if hi < cur.len() && try_it(&cur[..hi], &mut calls) { cur.truncate(hi); }
+    }
     loop {
         let mut improved = false;
         // delete chunks
